@@ -517,7 +517,7 @@ def gen_sys(ctx):
                 for n in lens:
                     cases.append(sys_case(rng, kind, out_sz, in_sz, sub, n, "plain"))
                     r = rng.random()
-                    if n <= 12 or r < ctx.n(0.25, 1.0):
+                    if n <= 12 or r < ctx.n(0.12, 1.0):
                         cases.append(sys_case(rng, kind, out_sz, in_sz, sub, n, rng.choice(["delay", "mail", "mail", "drain"])))
     return cases
 
@@ -526,7 +526,7 @@ def gen_working(ctx):
     """the modes the code gets right, with everything else varied: index, subindex, counter, sizes, schedules"""
     rng = ctx.rng
     cases = []
-    for _ in range(ctx.n(1500, 40000)):
+    for _ in range(ctx.n(1000, 40000)):
         kind = rng.choice(["read", "read", "write"])
         out_sz, in_sz = rng.choice(SIZES), rng.choice(SIZES)
         if kind == "read":
@@ -738,14 +738,14 @@ def run(ctx):
         lines.append(s3)
         checks.append(("python server vs SdoServer", s3,
                        " ".join("+".join(m.hex() for m in rs) or "-" for rs in sim.responses) + " | " + srv.show_objs(), None))
-    for _ in range(ctx.n(2500, 60000)):
+    for _ in range(ctx.n(1500, 60000)):
         c = gen_script(rng)
         sim, out = run_script(c)
         ns = sum(1 for t in sim.trace if t[0] == "w")
         ctx.case(c, nontrivial=ns > 0 and bool(sim.received), kind=f"script:{c['kind']}:{out.split(':')[0]}:{min(ns, 3)}msg")
         lines.append(c)
         checks.append(("master on a scripted mail list", c, show(sim.trace, out), None))
-    for _ in range(ctx.n(1500, 40000)):
+    for _ in range(ctx.n(1000, 40000)):
         c = gen_server(rng)
         ctx.case(c, nontrivial=True, kind="server")
         lines.append(c)
@@ -772,7 +772,8 @@ def run(ctx):
             i = next(k for k, ch in enumerate(checks) if ch[1] == {k2: v for k2, v in w.items() if k2 != "expect"})
             ctx.agree("recorded behaviour of a known finding vs model", w, w.get("expect"), model[i])
     # ctx keeps the first 50 failures only: report the unattributed ones first, then a few per known class
-    found.sort(key=lambda f: f[0] is not None)
+    # order: outside every known class, then inside a class but not the recorded behaviour, then the known ones
+    found.sort(key=lambda f: (f[0] is not None) * 2 + (f[0] is None and classify(f[2]) is not None))
     per = collections.Counter()
     for cls, what, case, observed in found:
         per[cls] += 1
